@@ -486,7 +486,7 @@ def r2_primitive_table(ctx):
 def r3_request_context(ctx):
     R = ctx.rule("C09.R3", "the per-request context is built from this invocation's request, peer address, request id and lookup result; the peer address flows per connection "
                  "from accept() to the context; both handler invocations get that context and that request", floor=38)
-    ds = ctx.ds
+    ds = ctx.dsn
     top = ctx.need_fn(ds, R, r"^server::http_request_handle$")
     hb = ds.body_of(top)
     nm = _names(top)
